@@ -3,7 +3,6 @@ import MythVerif.Proofs.WsQueueTsoTac
 namespace MythVerif.WsqTso
 open MythVerif.Wsq
 
-set_option maxHeartbeats 4000000 in
 theorem t_wk2 (s s' : St) (p : Pid) (b) : Inv s → s.tpc p = .wk2 b → stepT s p = some s' → Inv s' := by
   intro h heq hs
   have hb := h.tbufE p (by simp [heq, mayBuf])
@@ -26,7 +25,6 @@ theorem t_wk2 (s s' : St) (p : Pid) (b) : Inv s → s.tpc p = .wk2 b → stepT s
   · simp at hs; subst hs
     tso_fastT h p [wk2]
 
-set_option maxHeartbeats 4000000 in
 theorem t_wk3 (s s' : St) (p : Pid) (b) : Inv s → s.tpc p = .wk3 b → stepT s p = some s' → Inv s' := by
   intro h heq hs
   have hb := h.tbufE p (by simp [heq, mayBuf])
@@ -34,14 +32,13 @@ theorem t_wk3 (s s' : St) (p : Pid) (b) : Inv s → s.tpc p = .wk3 b → stepT s
   simp at hs; subst hs
   tso_fastT h p [wk3]
 
-set_option maxHeartbeats 4000000 in
 theorem d_decline (s s' : St) (p : Pid) (b) (r) : Inv s → s.tpc p = .wkd b r →
     s' = { s with tpc := upd s.tpc p (.wk5 b) } → Inv s' := by
   intro h heq hs
   subst hs
   tso_fastT h p []
 
-set_option maxHeartbeats 4000000 in
+set_option maxHeartbeats 1000000 in
 theorem d_accept (s s' : St) (p : Pid) (b) (r) (x : Elem) (A' : List Elem) : Inv s → s.tpc p = .wkd b r → s.A = x :: A' →
     s' = { s with tpc := upd s.tpc p (.wk4 r), A := A', lb := s.lb + 1, tr := false, flT := some x } → Inv s' := by
   intro h heq hA hs
